@@ -493,3 +493,78 @@ func checkOkSense(c *core.Ctx, l *core.Ledger, rule string, rels []string) {
 	}
 	l.Add(core.Obligation{Rule: rule, Key: "tests-examined", Status: core.Discharged, Detail: fmt.Sprintf("%d ok-tests of comma-ok assertions to interface or pointer types examined in %v", n, rels)})
 }
+
+// checkErrOverwritten (ERR-KEEP, path form): two call-produced errors merge in
+// one variable (a phi) and the second is computed in code the first one's call
+// dominates. Then, on the path through the second call, the first error is
+// replaced — which is fine only if it was looked at (compared with nil) before
+// the second call. `err = a(); if cond { err = b() }; return err` loses a's
+// failure whenever cond holds.
+func checkErrOverwritten(c *core.Ctx, l *core.Ledger, rule string, rels []string) {
+	in := map[string]bool{}
+	for _, r := range rels {
+		in[r] = true
+	}
+	for _, f := range c.AllFuncs() {
+		if !in[core.PkgRel(f)] || c.IsTestFile(f.Pos()) || core.IsGenerated2(c, f) || !errInScope(f) {
+			continue
+		}
+		k := 0
+		reported := map[ssa.Value]bool{}
+		core.Instrs(f, func(ins ssa.Instruction) {
+			ph, ok := ins.(*ssa.Phi)
+			if !ok || !core.IsErrorType(ph.Type()) {
+				return
+			}
+			for _, e1 := range ph.Edges {
+				if !fromCall(e1) || reported[e1] {
+					continue
+				}
+				i1, _ := e1.(ssa.Instruction)
+				for _, e2 := range ph.Edges {
+					if e2 == e1 || !fromCall(e2) {
+						continue
+					}
+					i2, _ := e2.(ssa.Instruction)
+					b1, b2 := i1.Block(), i2.Block()
+					if b1 == b2 || !b1.Dominates(b2) {
+						continue
+					}
+					// e2 made from e1 (multierr.Append(err, …), a wrap): nothing is lost
+					if dependsOn(e2, map[ssa.Value]bool{e1: true}, map[ssa.Value]bool{}) {
+						continue
+					}
+					// e1 tested before e2 is computed?
+					tested := false
+					if refs := e1.Referrers(); refs != nil {
+						for _, r := range *refs {
+							bo, isBo := r.(*ssa.BinOp)
+							if !isBo || (bo.Op != token.EQL && bo.Op != token.NEQ) {
+								continue
+							}
+							if bo.Referrers() == nil {
+								continue
+							}
+							for _, rr := range *bo.Referrers() {
+								if ifi, isIf := rr.(*ssa.If); isIf && (ifi.Block() == b2 || ifi.Block().Dominates(b2)) {
+									tested = true
+								}
+							}
+						}
+					}
+					if !tested {
+						k++
+						reported[e1] = true
+						pos := i2.Pos()
+						if ex, isEx := e2.(*ssa.Extract); isEx {
+							if ti, isI := ex.Tuple.(ssa.Instruction); isI {
+								pos = ti.Pos()
+							}
+						}
+						l.Bad(rule, fmt.Sprintf("%s:replaced-unseen#%d", core.SSAName(f), k), c.Rel(pos), "the error of "+core.Sym(e1)+" is replaced by the error of a later call without having been looked at: on that path the first failure is lost")
+					}
+				}
+			}
+		})
+	}
+}
